@@ -566,6 +566,15 @@ def scripted_history(chk, keys, actions, fresh):
         fx.teardown()
 
 
+def deep_nesting_model(chk):
+    r = tlc.run_tlc("RpycLifetimeInspect", "MC_RpycLifetimeInspect_depth.cfg", workers=2)
+    if r.violation != "NestingAtMostTwo":
+        raise tlc.MachineryError("RpycLifetimeInspect is expected to let unboxings nest without bound (NestingAtMostTwo violated), "
+                                 "TLC says %r" % r.violation)
+    chk.add_tlc(r, "RpycLifetimeInspect: suspended unboxings nest as deep as there are references in flight (counterexample to a bound "
+                "of 2; the directed history below drives the real code to its recursion limit)")
+
+
 def deep_nesting_run(chk):
     """many references to objects of a user class in flight back to back: every one is unboxed inside the INSPECT round trip of
     the one before (the answers are queued behind all of them), so the nesting depth of serve() grows with their number"""
@@ -1018,6 +1027,7 @@ def main():
     suite_traces.validate_refs(chk, PID, chans, "%d test files: %s" % (len(files), summary))
     both_directions(chk)
     refcoll_race(chk)
+    deep_nesting_model(chk)
     deep_nesting_run(chk)
     unbox_threads_model(chk)
     unbox_drop_races(chk)
